@@ -112,6 +112,10 @@ def c10_frame(ctx, carrier, step_ft, wind, kw, op, preset):
         fresh, shot2 = carriers.make(carrier, step_ft, wind, config=cfg_raise, **kw)
         old_global = tcpkg._globalMaxCalcStepSizeFeet
         try:
+            # the atmosphere object of the used side has already served ANOTHER shot (steeper, other load): it must carry no imprint
+            other_calc, other_shot = carriers.make('C', step_ft, 'none', relative_deg=40.0)
+            other_shot.atmo = shot1.atmo
+            other_calc.fire(other_shot, U.Foot(8 * step_ft), U.Foot(2 * step_ft))
             garbage = _poison(ctx, used)
             # process globals changed AFTER the calculators were created must not matter
             tcpkg._globalMaxCalcStepSizeFeet = ctx.real('garbage_global_step', 1e-3, 1e3)
@@ -283,3 +287,36 @@ def c10_footprint(ctx, carrier, step_ft, wind):
     finally:
         sys.setswitchinterval(old)
     ctx.check('threads_equal_serial', all(res.get(i) == serial[0] for i in range(3)))
+
+
+def _cfg_ro(tier):
+    return [{'n': n} for n in ((3, 4) if tier == 'quick' else (3, 4, 5, 6))]
+
+
+@harness('C10.result_object', 'C10', configs=_cfg_ro, functions=['py_ballisticcalc.trajectory_data._trajectory_data.HitResult.index_at_distance',
+                                                                  'py_ballisticcalc.trajectory_data._trajectory_data.HitResult.get_at_distance',
+                                                                  'py_ballisticcalc.trajectory_data._trajectory_data.HitResult.danger_space'], cost=4,
+         must_reach=['check:look_up_answer_independent_of_earlier_look_ups'],
+         bounds='a result object over N = 3..4 (quick) / 3..6 (thorough) symbolic rows (non-decreasing distances) queried twice with symbolic distances in either order (plus a danger-space '
+                'query in between): the second answer equals the answer of a freshly built result object over the same rows')
+def c10_result_object(ctx, n):
+    from harness.common import mkrow
+    p = pybc()
+    U = p.Unit
+    d = []
+    for i in range(n):
+        x = ctx.real(f'd{i}', 0, 1e5)
+        if i:
+            ctx.assume(x >= d[-1])
+        d.append(x)
+    rows = [mkrow(p, time=float(i), dist_ft=d[i], drop_ft=float(-i)) for i in range(n)]
+    q1, q2 = ctx.real('query1_ft', 0, 2e5), ctx.real('query2_ft', 0, 2e5)
+    used = p.HitResult(None, rows, True)
+    used.index_at_distance(U.Foot(q1))
+    try:
+        used.danger_space(U.Foot(q1), U.Foot(1.0), U.Radian(0.0))
+    except ArithmeticError:
+        pass
+    got = used.index_at_distance(U.Foot(q2))
+    want = p.HitResult(None, rows, True).index_at_distance(U.Foot(q2))
+    ctx.check('look_up_answer_independent_of_earlier_look_ups', got == want, info={'got': got, 'want': want})
